@@ -26,7 +26,9 @@ RULE = ("homonymous tips (3..12 tips, one or two names given twice or three time
         "full on them (path sums and the cut compare the stored numbers; the property text names zero or absent lengths only); "
         "random multifurcating trees (2..14 tips, 40 in thorough; rooted/unrooted; parent slot at random positions as after "
         "re-rootings; lengths all/mixed/none with zeros; supports mixed/all/none) x the three metrics for ToDistanceMatrix; "
-        "collections of 1..5 trees on the same taxa (different shapes) x metric for AvgDistanceMatrix, plus collections where one "
+        "collections of 1, 2, 3, 4, 5, 6, 7, 9, 10 or 49 trees on the same taxa (different shapes, or 49 identical ones) x metric for "
+        "AvgDistanceMatrix, the Id field of the records numbered 0..n-1 / all zero / restarting / with gaps / decreasing / duplicated / "
+        "offset (the average must not depend on it), every cell judged as the binary64 nearest to the exact mean, plus collections where one "
         "tip name differs (refusal); CutEdgesMaxLength with thresholds 0, 1/64, equal to a branch length of the tree, just above "
         "one, larger than all, random, negative; a few trees whose root has one neighbour (outside the oracle's domain: "
         "correspondence only).  non-trivial: matrix with >= 3 tips, average of >= 2 trees, cut giving more than one and fewer "
@@ -35,7 +37,8 @@ TRUSTED = ["tree built through NewNode/NewEdge + verif hooks (exact neighbour or
            "float64 cells are transmitted as exact rationals (big.Rat.SetFloat64)"]
 ASSUMPTIONS = ["tip names are distinct (sort.Slice on equal names is not modelled; TipBag refuses equal names)",
                "generated lengths and supports are dyadic (k/64, and tiny ones: 2^-27, 2^-30, 2^-40, 3*2^-35), so float64 sums are exact and "
-               "equal the model's rationals; only the division of the average is compared with a tolerance (relative 2^-50)"]
+               "equal the model's rationals; the division of the average is judged exactly: Go's float64 must be the correctly rounded (nearest, ties to even) value of the "
+               "exact mean (Model/Consensus.round53); only matrices PRINTED by the command line are compared with a tolerance"]
 LEVEL_TEXT = ("theorems in coq/Properties/C14.v about Model/Matrix.v (cells = path sums, symmetric, zero diagonal, name order, "
               "average = mean; cut = partition of the tips into the pieces left by the branches not shorter than the threshold); "
               "correspondence by exact equality of names, cells and bags; the run-time oracle for the cut is the independent "
@@ -199,8 +202,12 @@ def gen(rng, tier):
     navg = {"quick": 120, "thorough": 2000, "search": 200}[tier]
     for k in range(navg):
         nt = rng.randint(2, 10 if tier != "thorough" else 25)
-        cnt = rng.choice([1, 2, 2, 3, 3, 4, 5])
+        cnt = rng.choice([1, 2, 3, 3, 4, 5, 5, 6, 7, 9, 10, 49])
+        if cnt > 10:
+            nt = min(nt, 5)
         ts = [rand_tree(g, rng, tier, ntips=nt) for _ in range(cnt)]
+        if cnt == 49 and rng.random() < 0.5:
+            ts = [ts[0]] * cnt          # identical trees: the mean must be the cell itself
         mism = cnt >= 2 and rng.random() < 0.12
         if mism:
             j = rng.randrange(1, cnt)
@@ -214,8 +221,13 @@ def gen(rng, tier):
             p = {"pre": [x for x in p["pre"] if x.s not in ("renamehi", "renamelo")], "seed": p["seed"]}
         d = {"op": Sym("avg"), "metric": Sym(m), "trees": [T(t) for t in ts]}
         d.update(p)
+        pol = rng.choice(["seq", "seq", "zero", "restart", "gaps", "decreasing", "duplicated", "offset"])
+        if pol != "seq":
+            d["ids"] = {"zero": [0] * cnt, "restart": [i % 2 for i in range(cnt)], "gaps": [2 * i for i in range(cnt)],
+                        "decreasing": [cnt - 1 - i for i in range(cnt)], "duplicated": [i // 2 for i in range(cnt)],
+                        "offset": [i + 7 for i in range(cnt)]}[pol]
         out.append({"sx": sx(d),
-                    "meta": {"op": "avg", "metric": m, "ntrees": cnt, "ntips": nt, "mismatch": mism, "used": bool(p.get("pre"))}})
+                    "meta": {"op": "avg", "metric": m, "ntrees": cnt, "ntips": nt, "mismatch": mism, "used": bool(p.get("pre")), "ids": pol}})
     return out
 
 # ---------------------------------------------------------------- the command line: gotree matrix
